@@ -23,9 +23,9 @@ try:
     rc, out = sh("git -C /repo worktree add -f --detach %s HEAD -q" % wt)
     demos = [f for f in os.listdir(dst) if f.startswith("demo") and f.endswith(".go")]
     pkgdir = meta.get("demo_pkg_dir", "").strip("./")
-    pkgdir = re.sub(r"^/tmp/mut/C\d\d/", "", pkgdir)
+    pkgdir = re.sub(r"^/tmp/mut\d*/C\d\d/", "", pkgdir)
     cmd = meta.get("demo_cmd", "")
-    cmd = re.sub(r"cd /tmp/mut/C\d\d\s*&&\s*", "", cmd)
+    cmd = re.sub(r"cd /tmp/mut\d*/C\d\d\s*&&\s*", "", cmd)
     cmd = re.sub(r"^\s*cp \S+ \S+\s*&&\s*", "", cmd)
     cmd = re.sub(r"^\s*cd \S+\s*&&\s*", "", cmd)
     cmd = cmd.replace("go test", "go1.26.8 test")
